@@ -5,7 +5,8 @@ from .. import collector, spsc
 def check(ctx):
     ctx.explanation = (
         "MIR rules over GlobalCollector::handle_commands and spsc::Receiver::try_recv (config E): R1 every scratch "
-        "vector is drained/cleared on every path from where it may have been pushed to the return; R2 the only growing "
+        "vector is drained/cleared on every path from where it may have been pushed to the return, and every other container "
+        "field of GlobalCollector (the one-cycle list of ids finished before their start) is cleared each cycle; R2 the only growing "
         "operation on active_collectors is one insert keyed by StartCollect.collect_id, every CommitCollect removes its "
         "entry unconditionally, DropCollect removes it, span_collections/danglings grow only in the submit phase / "
         "amend_*; R3 the drain closure removes a receiver only on Err(ChannelClosed), and try_recv reports closed "
@@ -18,6 +19,7 @@ def check(ctx):
     if not c.need("R1"):
         return
     collector.rule_scratch_emptied(ctx, c, "R1")
+    collector.rule_other_containers_emptied(ctx, c, "R1")
     collector.rule_map_ops(ctx, c, "R2")
     collector.rule_drain_keeps_live(ctx, c, "R3")
     collector.rule_registry_in_place(ctx, c, "R3")
